@@ -708,6 +708,13 @@ where
                 &mut notify_change,
             )?;
 
+            // Nothing bound to a rolled-back fabric may outlive it
+            #[cfg(feature = "case-resumption")]
+            if let Some(fab_idx) = removed_fabric {
+                state.resumption.remove_for_fabric(fab_idx);
+                self.matter.transport().notify_resumption_dirty();
+            }
+
             // Close the commissioning window on timeout
             state
                 .pase
